@@ -128,6 +128,9 @@ class LoopCtx:
         return Snap(v)
 
     def L(self, name):
+        if name not in self.env:
+            # the invariant names a local the (rewritten) function no longer has: undecided, not a crash
+            raise Unsupported("loop invariant refers to local `%s`, which this function does not bind" % name)
         return self.env.get(name)
 
 
@@ -212,6 +215,7 @@ class Exec:
         self.skip = set()  # (name, clause) already refuted by a ground counter-model: not re-solved
         self.only_props = None  # restrict solving to obligations tagged with one of these properties
         self.stats = dict(paths=0, queries=0, feas=0)
+        self.cpu_hard = None  # no solver attempt is started that could run past this (process CPU seconds)
         self.cpu_deadline = None  # soft limit (process CPU seconds): past it, open obligations are reported `unknown` without solving
         self.exhausted = False
 
@@ -401,6 +405,11 @@ class Exec:
             schedule = [(self.timeout_ms, 0, True)]
         r = z3.unknown
         for ms, seed, hyps in schedule:
+            if self.cpu_hard is not None and time.process_time() + ms / 1000.0 * 2 > self.cpu_hard:
+                # not enough of the task's CPU allowance left for this attempt (the farm would kill the task and lose everything
+                # it has found): leave the obligation open
+                self.exhausted = True
+                break
             s = self._solver(ms)
             if seed:
                 s.set("random_seed", seed)
@@ -1144,7 +1153,21 @@ class Exec:
             if idx < len(cands):
                 return cands[idx], h
             return None, h
-        return (cands[0] if cands else None), h
+        if cands:
+            return cands[0], h
+        # fallback for renamed loop variables / hoisted iterables: the spec loops whose header text occurs nowhere in the
+        # function are paired, in source order, with the loops of the function that carry no spec - but only when both lists
+        # have the same length (otherwise the pairing would be a guess).  An invariant that then does not fit simply fails
+        # to be proved (undecided), it cannot make a wrong program pass.
+        loops = [n for n in ast.walk(self.fn) if isinstance(n, (ast.For, ast.While))]
+        loops.sort(key=lambda n: (n.lineno, n.col_offset))
+        heads = {extract.header_text(n) for n in loops}
+        orphan_specs = [l for l in self.spec.loops if l.header not in heads]
+        spec_heads = {l.header for l in self.spec.loops}
+        orphan_loops = [n for n in loops if extract.header_text(n) not in spec_heads]
+        if orphan_specs and len(orphan_specs) == len(orphan_loops) and node in orphan_loops:
+            return orphan_specs[orphan_loops.index(node)], h
+        return None, h
 
     def _loop_ord_for(self, node):
         return 0
